@@ -5,52 +5,10 @@ use std::str::FromStr;
 
 include!("../../kani/spec/oracles.rs");
 
+include!("../../specs/shared/battery_dt.rs");
+
 fn battery() -> Vec<String> {
-    let mut v: Vec<String> = Vec::new();
-    let hours = ["00", "09", "12", "23", "24", "25", "29", "30", "99"];
-    let mins = ["00", "30", "59", "60", "61", "99"];
-    let secs = ["00", "59", "60", "61", "99"];
-    for h in hours {
-        for m in mins {
-            for s in secs {
-                v.push(format!("{h}:{m}:{s}"));
-            }
-        }
-    }
-    let years = ["0000", "0001", "1900", "1999", "2000", "2023", "2024", "2100", "2400", "9999"];
-    let months = ["00", "01", "02", "03", "04", "06", "09", "11", "12", "13", "19", "99"];
-    let days = ["00", "01", "28", "29", "30", "31", "32", "39", "99"];
-    for y in years {
-        for mo in months {
-            for d in days {
-                v.push(format!("{y}-{mo}-{d}"));
-            }
-        }
-    }
-    let offsets = ["", "Z", "z", "+00:00", "-00:00", "+23:59", "-23:59", "+24:00", "-24:00", "+23:60", "+00:60",
-                   "+00:99", "+99:00", "+1:00", "+01:0", "+0100", "+01:00Z", "ZZ", " Z", "+", "-", "+01", "+01:", "x"];
-    let fracs = ["", ".", ".0", ".1", ".5", ".999", ".123456789", ".1234567891", ".1234567899", ".9999999999",
-                 ".000000001", ".0000000001", ".1a", ".12345678901234567890", ".-1"];
-    for delim in ["T", "t", " ", "_", "", "TT"] {
-        for date in ["1979-05-27", "2000-02-29", "1900-02-29", "2023-02-29"] {
-            for time in ["07:32:00", "23:59:60", "24:00:00", "00:60:00", "7:32:00"] {
-                for f in fracs {
-                    for o in offsets {
-                        v.push(format!("{date}{delim}{time}{f}{o}"));
-                    }
-                }
-            }
-        }
-    }
-    for f in fracs {
-        v.push(format!("12:34:56{f}"));
-        v.push(format!("12:34:56{f}Z"));
-    }
-    for s in ["", "1", "12", "12:", "12:3", "1979", "1979-", "1979-05", "1979-05-2", "1979-05-27T", "1979-05-27 ",
-              "\u{e9}\u{e9}:00:00", "1979-05-27T07:32:00\u{e9}", "19790527", "1979/05/27", " 1979-05-27", "1979-05-27\n"] {
-        v.push(s.to_owned());
-    }
-    v
+    dt_battery()
 }
 
 fn to_spec(d: &toml_datetime::Datetime) -> o_dt::DtSpec {
@@ -135,4 +93,42 @@ pub fn replay(arg_hex: &str) -> i32 {
             0
         }
     }
+}
+
+/// same digest lines as the `main` of the Verus-compiled extraction of unit V5
+pub fn fidelity() -> i32 {
+    std::panic::set_hook(Box::new(|_| {}));
+    let b = dt_battery();
+    let mut h = 0xcbf29ce484222325u64;
+    let mut ok = 0usize;
+    for s in &b {
+        let s2 = s.clone();
+        match catch_unwind(move || toml_datetime::Datetime::from_str(&s2).ok()) {
+            Ok(Some(d)) => {
+                ok += 1;
+                let v = to_spec(&d);
+                dt_fnv1a(&mut h, format!("{:?}|{:?}|{:?}", v.date, v.time, v.offset).as_bytes());
+            }
+            Ok(None) => dt_fnv1a(&mut h, b"<err>"),
+            Err(_) => dt_fnv1a(&mut h, b"<panic>"),
+        }
+    }
+    println!("battery {} accepted {} digest {:016x}", b.len(), ok, h);
+    0
+}
+
+/// same digest as the `main` of the Verus-compiled extraction of unit V6 (the printer)
+pub fn fidelity_printer() -> i32 {
+    let mut h = 0xcbf29ce484222325u64;
+    let vals = dt_values();
+    for (date, time, offset) in &vals {
+        let d = toml_datetime::Datetime {
+            date: date.map(|(year, month, day)| toml_datetime::Date { year, month, day }),
+            time: time.map(|(hour, minute, second, nanosecond)| toml_datetime::Time { hour, minute, second, nanosecond }),
+            offset: offset.map(|o| match o { None => toml_datetime::Offset::Z, Some(minutes) => toml_datetime::Offset::Custom { minutes } }),
+        };
+        dt_fnv1a(&mut h, d.to_string().as_bytes());
+    }
+    println!("values {} digest {:016x}", vals.len(), h);
+    0
 }
